@@ -70,7 +70,8 @@ fn explorations(run: &Run, flags: Flags) {
     // non-initial start states: the stores produced by ADF construction (native and bridged)
     let fams = [fam_a(2), fam_f(3, 1)];
     for fam in fams {
-        let depth = if quick { 1 } else { 2 };
+        // depth 2 from every ADF store is affordable for the two-statement ADFs only
+        let depth = if quick || fam.n > 2 { 1 } else { 2 };
         let total = fam.size() * 2;
         let name = format!("stores built from ADFs of {} (native, bridged) as start states, depth {}", fam.name, depth);
         let res = run.par_family(
